@@ -5,6 +5,7 @@ import (
 	"encoding/binary"
 	"fmt"
 	"reflect"
+	"time"
 
 	"github.com/free5gc/go-upf/internal/pfcp"
 	"github.com/free5gc/go-upf/internal/report"
@@ -277,6 +278,222 @@ func c09Run(c *c09Case) (finds [][2]string, abort string, stats map[string]int) 
 	return finds, "", stats
 }
 
+// ---- real timers: an expiry that is already queued when the answer is handled ----
+//
+// The retransmission timers really run (tens of milliseconds). While the event
+// loop is held inside a data-plane call, the timers of the outstanding requests
+// fire (their expiries queue up) and the peer's responses queue up as well;
+// when the loop is released Go's select picks the order. Whatever it picks:
+// a request whose response the UPF has handled is never sent again, and an
+// unanswered one is sent at most 1+MaxRetrans times. "Handled" is decided on
+// the wire: everything the UPF sent before it answered a later heartbeat from
+// the same socket precedes the heartbeat response in that socket's queue.
+
+type c09StaleCase struct {
+	MaxRetrans uint8  `json:"max_retrans"`
+	RTms       int    `json:"retrans_timeout_ms"`
+	N          int    `json:"outstanding"`
+	Answer     []bool `json:"answered_while_the_loop_is_busy"`
+}
+
+func c09Stale(c *c09StaleCase, res *vh.Result) (finds [][2]string, abort string, sig string) {
+	add := func(sg, desc string) { finds = append(finds, [2]string{"C09:" + sg, desc}) }
+	dp := vh.NewModelDP()
+	gate := make(chan struct{})
+	entered := make(chan struct{}, 1)
+	tap := &vh.Tap{Inner: dp}
+	tap.Delay = func(dc *vh.DPCall) {
+		if dc.Op == "Create" && dc.Kind == "FAR" && dc.ID == 99 {
+			entered <- struct{}{}
+			<-gate
+		}
+	}
+	vh.TakeFatals()
+	rt := time.Duration(c.RTms) * time.Millisecond
+	env, err := vh.StartEnv(tap, vh.EnvOpts{MaxRetrans: c.MaxRetrans, RetransTimeout: rt})
+	if err != nil {
+		return nil, "start: " + err.Error(), ""
+	}
+	s, err := vh.NewSMF(2, env.UPF, 0)
+	if err != nil {
+		env.Stop()
+		return nil, "smf: " + err.Error(), ""
+	}
+	released := false
+	defer func() {
+		if !released {
+			close(gate)
+		}
+		s.Close()
+		env.Stop()
+	}()
+	seq := s.NextSeq()
+	s.SendFrom(0, vh.BuildMsg(vh.MAssocReq, nil, seq, vh.NodeIDv4(s.IP), vh.RecoveryTS(1)))
+	if s.WaitRsp(seq, 2e9) == nil {
+		return nil, "association unanswered", ""
+	}
+	seq = s.NextSeq()
+	zero := uint64(0)
+	s.SendFrom(0, vh.BuildMsg(vh.MEstReq, &zero, seq, vh.NodeIDv4(s.IP), vh.FSEIDv4(0x90, s.IP), vh.Rule{Kind: "URR", ID: 1, Method: 2, Trig: 2}.CreateIE()))
+	d := s.WaitRsp(seq, 2e9)
+	if d == nil || d.M == nil || d.M.Find(vh.TFSEID) == nil {
+		return nil, "establishment unanswered", ""
+	}
+	up := binary.BigEndian.Uint64(d.M.Find(vh.TFSEID).V[1:9])
+	// hold the loop inside Create FAR 99
+	mseq := s.NextSeq()
+	s.SendFrom(0, vh.BuildMsg(vh.MModReq, &up, mseq, vh.Rule{Kind: "FAR", ID: 99, Action: 1}.CreateIE()))
+	select {
+	case <-entered:
+	case <-time.After(5 * time.Second):
+		return nil, "the gated call was not reached", ""
+	}
+	// the reports queue up behind it; release once so that they go out and their timers start, then hold again
+	for k := 0; k < c.N; k++ {
+		r := vh.UniqueUSAR(1, uint64(k+1))
+		r.USARTrigger.Flags = report.USAR_TRIG_VOLTH
+		env.Srv.NotifySessReport(report.SessReport{SEID: up, Reports: []report.Report{r}})
+	}
+	m2 := s.NextSeq()
+	s.SendFrom(0, vh.BuildMsg(vh.MModReq, &up, m2, vh.Rule{Kind: "FAR", ID: 99, Action: 1}.CreateIE()))
+	gate <- struct{}{} // first modification continues; select order between srCh and rcvCh is the runtime's
+	select {
+	case <-entered:
+	case <-time.After(5 * time.Second):
+		return nil, "the second gated call was not reached", ""
+	}
+	// which requests are out? (those sent before the loop entered the second gated call)
+	s.Pump()
+	first := map[uint32][]byte{}
+	var order []uint32
+	for _, d := range s.ReportsSnapshot() {
+		if d.M != nil {
+			if _, ok := first[d.M.Seq]; !ok {
+				first[d.M.Seq] = d.B
+				order = append(order, d.M.Seq)
+			}
+		}
+	}
+	if len(order) == 0 {
+		// select served the second modification before any report: nothing outstanding while the loop is held
+		released = true
+		close(gate)
+		return nil, "", ""
+	}
+	// wait for the real timers of all of them to have fired at least once more: their expiries sit in the queue
+	deadline := time.Now().Add(5 * time.Second)
+	for {
+		_, _, nto := env.Srv.VerifQueueLens()
+		if nto >= len(order) {
+			break
+		}
+		if time.Now().After(deadline) {
+			released = true
+			close(gate)
+			return nil, "timers did not fire while the loop was held", ""
+		}
+		time.Sleep(time.Millisecond)
+	}
+	answered := map[uint32]bool{}
+	nans := 0
+	for k, q := range order {
+		if k < len(c.Answer) && c.Answer[k] {
+			s.SendFrom(0, vh.BuildMsg(vh.MRepRsp, &up, q, vh.Cause(vh.CauseAccepted)))
+			answered[q] = true
+			nans++
+		}
+	}
+	deadline = time.Now().Add(5 * time.Second)
+	for {
+		nrcv, _, _ := env.Srv.VerifQueueLens()
+		if nrcv >= nans {
+			break
+		}
+		if time.Now().After(deadline) {
+			released = true
+			close(gate)
+			return nil, "responses did not reach the receive queue", ""
+		}
+		time.Sleep(time.Millisecond)
+	}
+	copiesHeld := map[uint32]int{}
+	s.Pump()
+	for _, d := range s.ReportsSnapshot() {
+		if d.M != nil {
+			copiesHeld[d.M.Seq]++
+		}
+	}
+	released = true
+	close(gate)
+	// marker: a heartbeat from the same socket, sent after the responses
+	hseq := s.NextSeq()
+	s.SendFrom(0, vh.BuildMsg(vh.MHeartbeatReq, nil, hseq, vh.RecoveryTS(3)))
+	hb := s.WaitRsp(hseq, 5*time.Second)
+	if hb == nil {
+		if fs := vh.TakeFatals(); len(fs) > 0 {
+			add(vh.FaultSig(fs[0]), "fatal: "+fs[0])
+			return finds, "", ""
+		}
+		return nil, "marker heartbeat unanswered", ""
+	}
+	// let every timer that is (wrongly or rightly) still armed run out
+	time.Sleep(time.Duration(int(c.MaxRetrans)+3) * rt)
+	h2 := s.NextSeq()
+	s.SendFrom(0, vh.BuildMsg(vh.MHeartbeatReq, nil, h2, vh.RecoveryTS(3)))
+	if s.WaitRsp(h2, 5*time.Second) == nil {
+		return nil, "closing heartbeat unanswered", ""
+	}
+	total := map[uint32]int{}
+	after := map[uint32]int{}
+	for _, d := range s.ReportsSnapshot() {
+		if d.M == nil {
+			continue
+		}
+		total[d.M.Seq]++
+		if d.T > hb.T {
+			after[d.M.Seq]++
+		}
+		if b, ok := first[d.M.Seq]; ok && !bytes.Equal(b, d.B) {
+			add("retransmission-differs", fmt.Sprintf("a copy of request %d differs from the original", d.M.Seq))
+		}
+	}
+	var shape []string
+	for _, q := range order {
+		if answered[q] {
+			if after[q] > 0 {
+				add("retransmitted-after-answer", fmt.Sprintf("request %d was answered (the UPF had handled the response before it answered the marker heartbeat) but %d more copies followed (%d in total, max retries %d): a timer expiry queued before the response was still acted on",
+					q, after[q], total[q], c.MaxRetrans))
+			}
+			if total[q] == copiesHeld[q] {
+				res.Count("stale_expiries_observed(answer_handled_before_the_queued_expiry)", 1)
+				shape = append(shape, "answer-first")
+			} else {
+				res.Count("expiry_handled_before_the_queued_answer", 1)
+				shape = append(shape, "expiry-first")
+			}
+		} else {
+			if total[q] > 1+int(c.MaxRetrans) {
+				add("too-many-retransmissions", fmt.Sprintf("unanswered request %d was sent %d times, max retries %d", q, total[q], c.MaxRetrans))
+			}
+			if total[q] < 1+int(c.MaxRetrans) {
+				res.Count("unanswered_requests_with_fewer_copies_than_retries_within_the_wait(not_decided)", 1)
+			}
+			shape = append(shape, fmt.Sprintf("unanswered-%d", total[q]))
+		}
+	}
+	post := env.Srv.VerifSnapshot()
+	for _, t := range post.Tx {
+		if answered[t.Seq] {
+			add("entry-not-released", fmt.Sprintf("request %d was answered but its bookkeeping remains", t.Seq))
+		}
+	}
+	if fs := vh.TakeFatals(); len(fs) > 0 {
+		add(vh.FaultSig(fs[0]), "fatal: "+fs[0])
+	}
+	res.Count("real_timer_requests", int64(len(order)))
+	return finds, "", vh.Sig("stale", c.MaxRetrans, c.N, shape)
+}
+
 func indexOf(rs []*c09Req, r *c09Req) int {
 	for i, x := range rs {
 		if x == r {
@@ -306,7 +523,28 @@ func runC09(res *vh.Result) {
 		nexh = pow * 4 * 2
 	}
 	nrand := vh.Tiered(3000, 60000)
-	res.Cases(nexh+nrand, func(i int, rng *vh.Rng) {
+	nstale := vh.Tiered(96, 1600)
+	res.Cases(nexh+nrand+nstale, func(i int, rng *vh.Rng) {
+		if i >= nexh+nrand {
+			c := c09StaleCase{MaxRetrans: uint8(rng.Intn(4)), RTms: rng.Range(15, 40), N: rng.Range(1, 3)}
+			for k := 0; k < c.N; k++ {
+				c.Answer = append(c.Answer, rng.Chance(3, 4))
+			}
+			finds, abort, sig := c09Stale(&c, res)
+			if abort != "" {
+				res.Inconc(fmt.Sprintf("case %d: %s", i, abort))
+			}
+			seen := map[string]bool{}
+			for _, f := range finds {
+				if !seen[f[0]] {
+					seen[f[0]] = true
+					res.Violate(i, f[0], f[1], c)
+				}
+			}
+			res.Eval(sig)
+			res.Count("real_timer_cases", 1)
+			return
+		}
 		var c c09Case
 		if i < nexh {
 			x := i
